@@ -217,6 +217,53 @@ func valuesUnder(fn *ssa.Function, v ssa.Value, val map[string]int64) []ssa.Valu
 	return out
 }
 
+// successBypass: the position of a return of fn that may carry a nil error and is reachable from the entry without
+// entering one of the stop blocks ("" when every such return lies behind a stop block). A return that yields a result
+// variable (a phi in the return block) is judged per incoming edge: only edges whose error value can be nil count.
+func (c *Ctx) successBypass(fn *ssa.Function, stop map[*ssa.BasicBlock]bool) string {
+	seen := map[*ssa.BasicBlock]bool{}
+	var walk func(b *ssa.BasicBlock)
+	walk = func(b *ssa.BasicBlock) {
+		if seen[b] || stop[b] {
+			return
+		}
+		seen[b] = true
+		for _, sb := range b.Succs {
+			walk(sb)
+		}
+	}
+	walk(fn.Blocks[0])
+	ei := errorResultIndex(fn)
+	for _, r := range successReturns(fn) {
+		rb := r.Block()
+		if ret, isRet := r.(*ssa.Return); isRet && ei >= 0 && ei < len(ret.Results) {
+			if ph, isPhi := returnedValue(ret, ei).(*ssa.Phi); isPhi && ph.Block() == rb {
+				for i, e := range ph.Edges {
+					if definitelyNonNilErr(e, rb.Preds[i], 0) {
+						continue
+					}
+					if _, isMI := e.(*ssa.MakeInterface); isMI {
+						continue // a constructed error value
+					}
+					if g, isG := e.(*ssa.UnOp); isG {
+						if _, isGlobal := g.X.(*ssa.Global); isGlobal {
+							continue // a package-level sentinel error
+						}
+					}
+					if seen[rb.Preds[i]] {
+						return c.pos(r.Pos())
+					}
+				}
+				continue
+			}
+		}
+		if seen[rb] {
+			return c.pos(r.Pos())
+		}
+	}
+	return ""
+}
+
 // acceptsUnder: some success return of fn is reachable under the valuation (path-sensitive).
 func acceptsUnder(fn *ssa.Function, val map[string]int64) bool {
 	a, _ := returnOutcomes(fn, val)
